@@ -678,7 +678,7 @@ class Spectrum(numpy.ma.masked_array):
         final_mask = numpy.logical_or(final_mask, where_folded_out)
 
         outfs = Spectrum(folded, mask=final_mask, data_folded=True,
-                         pop_ids=self.pop_ids)
+                         pop_ids=self.pop_ids, mask_corners=False)
         outfs.extrap_x = self.extrap_x
         return outfs
 
@@ -711,7 +711,7 @@ class Spectrum(numpy.ma.masked_array):
         newmask = numpy.logical_or(newmask, reverse_array(newmask))
     
         outfs = Spectrum(newdata, mask=newmask, data_folded=False, 
-                         pop_ids=self.pop_ids)
+                         pop_ids=self.pop_ids, mask_corners=False)
         outfs.extrap_x = self.extrap_x
         return outfs
 
